@@ -1,6 +1,7 @@
 package main
 
 import (
+	"bytes"
 	"errors"
 	"fmt"
 	"sort"
@@ -866,6 +867,108 @@ func genC06(r *Rng, tier string, emit func(string, Tok)) {
 		}
 	}
 	rec2(nil, maxLen)
+	// duplicates of the LAST packet of multi-packet PAT / PMT units (C06_dup_psi): the unit is flushed early by that
+	// packet, so its duplicate meets an empty queue. The byte at the packet boundary decides what happens to it:
+	// read as a pointer_field that leads past the end (0xff, 0xb8) it waits and is flushed as an orphan group by
+	// the next unit start; 0x00 followed by a known table_id likewise, and the orphan fails to parse; a small value
+	// leading into 0xff stuffing makes it "complete" by itself and it is flushed at once.
+	for k := 0; k < scale(tier, 40, 300); k++ {
+		pesPID := uint16(0x100 + r.Intn(0x100))
+		pmtPID := uint16(0x1000)
+		if r.Bool() {
+			pmtPID = uint16(0x20 + r.Intn(0x40))
+		}
+		boundary := []int{0x00, 0xff, 0xb8, 0x42, 0x02, r.Intn(256)}[r.Intn(6)]
+		mkPAT := func(big bool) *refUnit {
+			pat := &refSection{TableID: 0, Ext: uint16(r.Bits(16)), Version: byte(r.Intn(32)),
+				Programs: []refProgram{{Number: 1, PID: pmtPID}}}
+			if big {
+				for j, n := 1, r.Range(46, 70); j < n; j++ {
+					pr := refProgram{Number: uint16(0x4000 + r.Intn(0x4000)), PID: uint16(0x1e00 + r.Intn(0x100))}
+					if j == 43 { // its last byte is the first payload byte of the second packet (pointer_field 0, 184-byte chunks)
+						pr.PID = uint16(0x1e00 + boundary)
+					}
+					pat.Programs = append(pat.Programs, pr)
+				}
+			}
+			u := refPSI(r, 0, []*refSection{pat})
+			return u
+		}
+		mkPMT := func(big bool) *refUnit {
+			pmt := &refSection{TableID: 2, Ext: 1, Version: byte(r.Intn(32)), PCRPID: pesPID,
+				Streams: []refStream{{Type: 0x1b, PID: pesPID}}}
+			if big {
+				for j, n := 0, r.Range(12, 30); j < n; j++ {
+					st := refStream{Type: []byte{0x1b, 0x0f, 0x03, 0x06, 0x81}[r.Intn(5)], PID: uint16(0x1d00 + r.Intn(0x100))}
+					dl := r.Range(2, 12)
+					st.Desc = append([]byte{0x13, byte(dl)}, r.Bytes(dl)...)
+					pmt.Streams = append(pmt.Streams, st)
+				}
+			}
+			return refPSI(r, pmtPID, []*refSection{pmt})
+		}
+		ccs := map[uint16]*byte{}
+		pkts := func(u *refUnit, exact bool) []*refPacket {
+			if ccs[u.PID] == nil {
+				c := byte(r.Intn(16))
+				ccs[u.PID] = &c
+			}
+			if !exact {
+				return packetiseUnit(r, u, 0, ccs[u.PID], r.Chance(1, 4))
+			}
+			var out []*refPacket // 184-byte chunks, the rest padded with 0xff inside the payload
+			rest := u.Bytes
+			for first := true; len(rest) > 0; first = false {
+				n := 184
+				if n > len(rest) {
+					n = len(rest)
+				}
+				*ccs[u.PID] = (*ccs[u.PID] + 1) & 15
+				pl := append([]byte{}, rest[:n]...)
+				for len(pl) < 184 {
+					pl = append(pl, 0xff)
+				}
+				out = append(out, &refPacket{PID: u.PID, PUSI: first, CC: *ccs[u.PID], AFLen: -1, Payload: pl})
+				rest = rest[n:]
+			}
+			return out
+		}
+		exact := r.Chance(2, 3)
+		var seq [][]*refPacket // the units in stream order
+		var isPSI []bool
+		add := func(ps []*refPacket, psi bool) { seq = append(seq, ps); isPSI = append(isPSI, psi) }
+		for rep := 0; rep < 3; rep++ {
+			add(pkts(mkPAT(rep == 0 || r.Bool()), exact), true)
+			add(pkts(mkPMT(rep == 0 || r.Bool()), exact), true)
+			for j, n := 0, r.Range(1, 2); j < n; j++ {
+				add(pkts(refMuxPES(r, pesPID, 0xe0, r.Range(1, 500), false), false), false)
+			}
+		}
+		var clean []byte
+		for _, ps := range seq {
+			for _, p := range ps {
+				clean = append(clean, p.encode()...)
+			}
+		}
+		emit("dup-psi-last-clean", scenario{kind: 1, optSize: 188, fault: -1, prsSpec: L(I(1)), data: clean, ops: []int{3}}.tok())
+		for ui, ps := range seq {
+			if !isPSI[ui] || len(ps) < 2 {
+				continue
+			}
+			for _, delay := range []int{0, 1} { // the duplicate directly after, or after the first packet of the next unit (another PID)
+				var d []byte
+				for uj, qs := range seq {
+					for pj, p := range qs {
+						d = append(d, p.encode()...)
+						if (delay == 0 && uj == ui && pj == len(qs)-1) || (delay == 1 && uj == ui+1 && pj == 0) {
+							d = append(d, ps[len(ps)-1].encode()...)
+						}
+					}
+				}
+				emit("dup-psi-last", scenario{kind: 1, optSize: 188, fault: -1, prsSpec: L(I(1)), data: d, ops: []int{3}}.tok())
+			}
+		}
+	}
 }
 
 // unitKey identifies a delivered unit by PID and content.
@@ -899,7 +1002,85 @@ func oracleC06(s scenario, run *demuxRun) string {
 	// which only need the faulted stream itself and the reference decoder.
 	units := unitsOf(s.data)
 	_ = units
-	return oracleC06Faulted(s, run)
+	if v := oracleC06Faulted(s, run); v != "" {
+		return v
+	}
+	return oracleC06DupGroups(s, run)
+}
+
+// oracleC06DupGroups checks the duplicate clause at the level of the packet groups handed to the parser, on the
+// implementation alone: for a stream whose only faults are immediate duplicates (no counter gap on any PID), the
+// groups are those of the stream with the duplicates removed (the implementation is run again on it), in the same
+// order, except that on PID 0 / PMT PIDs a duplicated packet may additionally appear as a group of its own, at most
+// once per duplicate (C06_dup_pes, C06_dup_psi).
+func oracleC06DupGroups(s scenario, run *demuxRun) string {
+	type last struct {
+		cc  int
+		raw []byte
+	}
+	prev := map[uint16]*last{}
+	var dedup []byte
+	dups := map[string]int{} // summary of a duplicated packet -> how many times it was duplicated
+	ndup := 0
+	for off := 0; off+188 <= len(s.data); off += 188 {
+		b := s.data[off : off+188]
+		if b[0] != 0x47 {
+			return ""
+		}
+		pid := uint16(b[1]&0x1f)<<8 | uint16(b[2])
+		if b[1]&0x80 != 0 || b[3]&0x10 == 0 {
+			dedup = append(dedup, b...)
+			continue
+		}
+		cc := int(b[3] & 15)
+		if l := prev[pid]; l != nil {
+			switch {
+			case bytes.Equal(l.raw, b):
+				p := 4
+				if b[3]&0x20 != 0 {
+					p += 1 + int(b[4])
+				}
+				if p > 188 {
+					p = 188
+				}
+				dups[pktSummary(&astits.Packet{Header: astits.PacketHeader{PID: pid, ContinuityCounter: uint8(cc), PayloadUnitStartIndicator: b[1]&0x40 != 0}, Payload: b[p:]}).String()]++
+				ndup++
+				continue
+			case cc != (l.cc+1)&15:
+				return "" // a gap: the loss clauses apply, not this one
+			}
+		}
+		prev[pid] = &last{cc, b}
+		dedup = append(dedup, b...)
+	}
+	if ndup == 0 {
+		return ""
+	}
+	psi := psiPIDsOf(unitsOf(dedup))
+	other := runScenario(scenario{kind: 1, optSize: 188, fault: -1, prsSpec: L(I(1)), data: dedup, ops: []int{3}})
+	j := 0
+	for _, g := range run.groups {
+		if j < len(other.groups) && g.String() == other.groups[j].String() {
+			j++
+			continue
+		}
+		// an extra group: only a duplicated packet of a PSI PID, alone
+		ok := false
+		if len(g.L) == 1 {
+			key := g.At(0).String()
+			if dups[key] > 0 && psi[uint16(g.At(0).At(0).Int())] {
+				dups[key]--
+				ok = true
+			}
+		}
+		if !ok {
+			return fmt.Sprintf("duplicates only: the packet groups differ from those of the stream without the duplicates other than by a duplicated PSI packet as a group of its own: group %s", g.String())
+		}
+	}
+	if j != len(other.groups) {
+		return fmt.Sprintf("duplicates only: a packet group of the stream without the duplicates is missing or altered: %s", other.groups[j].String())
+	}
+	return ""
 }
 
 // oracleC06Faulted checks the property's clauses on a faulted stream using only the stream and an independent
